@@ -664,6 +664,7 @@ func (m *Machine) classifyFields() {
 			return true
 		})
 	}
+	in.posFld = m.posFields
 	if in.buildFld != "" {
 		for fn, fd := range in.methods {
 			if fd.Type.Params == nil || len(fd.Type.Params.List) == 0 || len(fd.Type.Params.List[0].Names) == 0 {
